@@ -1019,6 +1019,11 @@ class Intern:
         k = json.dumps(snap(v), sort_keys=True)
         return self.t.setdefault(k, len(self.t))
 
+    def tok_snap(self, sv):
+        """token of a value that is already a snapshot"""
+        k = json.dumps(sv, sort_keys=True)
+        return self.t.setdefault(k, len(self.t))
+
 
 def lanelet_ring(l):
     """polygon ring of a generated lanelet (right boundary, then the left one backwards), exact rationals"""
@@ -1077,10 +1082,62 @@ def abs_pred(p, I):
             "states": [abs_state(x, I) for x in p.trajectory.state_list], "cache": "occupancy_set" in getattr(p, "__dict__", {})}
 
 
-def abstract(sc, pps, I, cells):
-    """the abstract state CR.Frame.St of the real objects (hidden cache flags read from the private slots)"""
+_MODELLED = {
+    "Scenario": {"lanelet_network", "dynamic_obstacles", "static_obstacles", "environment_obstacle", "phantom_obstacle"},
+    "obstacle": {"initial_state", "prediction", "obstacle_id"},
+    "prediction": {"trajectory", "occupancy_set"},
+    "trajectory": {"state_list", "final_state"},
+    "LaneletNetwork": {"lanelets", "traffic_signs", "traffic_lights", "intersections"},
+    "Lanelet": {"lanelet_id", "successor", "predecessor", "static_obstacles_on_lanelet", "dynamic_obstacles_on_lanelet", "traffic_lights"},
+    "TrafficSign": {"traffic_sign_id"},
+    "TrafficLight": {"traffic_light_id", "traffic_light_cycle", "active"},
+    "TrafficLightCycle": {"cycle_elements", "time_offset"},
+    "Intersection": {"intersection_id"},
+}
+
+
+def _attrs(d, modelled, I, prefix=""):
+    """[[name, token]] of the public attributes of a snapshotted object that the model does not hold in structured form"""
+    return [[prefix + k, I.tok_snap(v)] for k, v in d.items() if k not in modelled and k != "__class__"]
+
+
+def extras(S, I):
+    """CR.Frame.Extra of a snapshot: one content token per remaining public attribute"""
+    sd = S["scenario"]
+    nd = sd["lanelet_network"]
+    obstacles = []
+    for key in ("static_obstacles", "dynamic_obstacles", "phantom_obstacle", "environment_obstacle"):
+        for d in sd[key][1]:
+            a = _attrs(d, _MODELLED["obstacle"], I)
+            p = d.get("prediction")
+            if isinstance(p, dict):
+                a += _attrs(p, _MODELLED["prediction"], I, "prediction.")
+                t = p.get("trajectory")
+                if isinstance(t, dict):
+                    a += _attrs(t, _MODELLED["trajectory"], I, "prediction.trajectory.")
+            obstacles.append([d["obstacle_id"], a])
+    lights = []
+    for d in nd["traffic_lights"][1]:
+        a = _attrs(d, _MODELLED["TrafficLight"], I)
+        c = d.get("traffic_light_cycle")
+        if isinstance(c, dict):
+            a += _attrs(c, _MODELLED["TrafficLightCycle"], I, "traffic_light_cycle.")
+        lights.append([d["traffic_light_id"], a])
+    return {"scenario": _attrs(sd, _MODELLED["Scenario"], I), "network": _attrs(nd, _MODELLED["LaneletNetwork"], I),
+            "obstacles": obstacles,
+            "lanelets": [[d["lanelet_id"], _attrs(d, _MODELLED["Lanelet"], I)] for d in nd["lanelets"][1]],
+            "signs": [[d["traffic_sign_id"], _attrs(d, _MODELLED["TrafficSign"], I)] for d in nd["traffic_signs"][1]],
+            "lights": lights,
+            "intersections": [[d["intersection_id"], _attrs(d, _MODELLED["Intersection"], I)] for d in nd["intersections"][1]]}
+
+
+def abstract(sc, pps, I, cells, S=None):
+    """the abstract state CR.Frame.St of the real objects (hidden cache flags read from the private slots); S: a snapshot of
+    (sc, pps) taken at the same moment, if there is one (the extras are read from it)"""
     from commonroad.scenario.obstacle import DynamicObstacle, EnvironmentObstacle, PhantomObstacle, StaticObstacle
     from commonroad.scenario.traffic_light import TrafficLightState
+    if S is None:
+        S = snapshot(sc, pps)
     obs = []
     for o in sc.obstacles:
         if isinstance(o, StaticObstacle):
@@ -1101,7 +1158,7 @@ def abstract(sc, pps, I, cells):
     problems = []
     for pid, p in pps.planning_problem_dict.items():
         t = p.goal.lanelets_of_goal_position
-        problems.append([pid, abs_state(p.initial_state, I), [[n for n in g.used_attributes if n != "time_step"] for g in p.goal.state_list],
+        problems.append([pid, abs_state(p.initial_state, I), [[[n, I.tok(getattr(g, n))] for n in g.used_attributes] for g in p.goal.state_list],
                          None if t is None else ["defaultdict" if isinstance(t, collections.defaultdict) else "dict",
                                                  [[int(k), [int(x) for x in v]] for k, v in t.items()]]])
     return {"obstacles": obs,
@@ -1110,7 +1167,7 @@ def abstract(sc, pps, I, cells):
                                   [[int(t), sorted(int(x) for x in ids)] for t, ids in l.dynamic_obstacles_on_lanelet.items()],
                                   sorted(int(x) for x in l.traffic_lights)]
                                  for l in net.lanelets], "index": getattr(net, "_strtee", None) is not None},
-            "lights": lights, "problems": problems}
+            "lights": lights, "problems": problems, "extra": extras(S, I)}
 
 
 def _xml_tag(attr):
@@ -1122,11 +1179,15 @@ def _xml_tag(attr):
     return parts[0] + "".join(x[:1].upper() + x[1:] for x in parts[1:])
 
 
+_TL_VALUES = ["red", "yellow", "redYellow", "green", "inactive"]      # TrafficLightState values in declaration order
+
+
 def file_abs_xml(data):
     """what the model's FileAbs shows, read back from the XML bytes"""
     from lxml import etree
     root = etree.fromstring(data)
     obstacles, problems = [], []
+    problem_states, lanelets, lights, signs, intersections = [], [], [], [], []
 
     def tags(node):
         return [c.tag for c in node if c.tag != "time"]
@@ -1158,7 +1219,23 @@ def file_abs_xml(data):
                 pos = g.find("position")
                 goals.append([int(x.get("ref")) for x in pos.findall("lanelet")] if pos is not None else [])
             problems.append([int(node.get("id")), goals])
-    return {"obstacles": obstacles, "problems": problems}
+            problem_states.append([int(node.get("id")), tags(node.find("initialState")), [[c.tag for c in g] for g in node.findall("goalState")]])
+        elif node.tag == "lanelet":
+            lanelets.append([int(node.get("id")), [int(x.get("ref")) for x in node.findall("successor")],
+                             [int(x.get("ref")) for x in node.findall("predecessor")],
+                             sorted(int(x.get("ref")) for x in node.findall("trafficLightRef"))])
+        elif node.tag == "trafficLight":
+            cyc = node.find("cycle")
+            off = cyc.find("timeOffset") if cyc is not None else None
+            lights.append([int(node.get("id")),
+                           [[_TL_VALUES.index(e.find("color").text), int(e.find("duration").text)] for e in cyc.findall("cycleElement")],
+                           int(off.text) if off is not None else 0])
+        elif node.tag == "trafficSign":
+            signs.append(int(node.get("id")))
+        elif node.tag == "intersection":
+            intersections.append(int(node.get("id")))
+    return {"obstacles": obstacles, "problems": problems, "problem_states": problem_states, "lanelets": lanelets, "lights": lights,
+            "signs": signs, "intersections": intersections}
 
 
 def file_abs_pb(data):
@@ -1185,16 +1262,25 @@ def file_abs_pb(data):
     for o in m.environment_obstacles:
         obstacles.append([o.environment_obstacle_id, [], []])
     problems = [[p.planning_problem_id, [list(g.goal_position_lanelets) for g in p.goal_states]] for p in m.planning_problems]
-    return {"obstacles": obstacles, "problems": problems}
+    return {"obstacles": obstacles, "problems": problems,
+            "lanelets": [[l.lanelet_id, list(l.successors), list(l.predecessors)] for l in m.lanelets],
+            "lights": [l.traffic_light_id for l in m.traffic_lights], "signs": [x.traffic_sign_id for x in m.traffic_signs],
+            "intersections": [x.intersection_id for x in m.intersections]}
 
 
 def _model_file(f, fmt):
     """model FileAbs (attribute names) in the shape of file_abs_xml / file_abs_pb"""
     if fmt == "xml":
         return {"obstacles": [[i, [_xml_tag(n) for n in init], [[t, [_xml_tag(n) for n in a]] for t, a in states], occs]
-                              for i, init, states, occs in f["obstacles"]], "problems": f["problems"]}
+                              for i, init, states, occs in f["obstacles"]], "problems": f["problems"],
+                "problem_states": [[i, [_xml_tag(n) for n in init], [[_xml_tag(n) for n in g] for g in goals]]
+                                   for i, init, goals in f["problem_states"]] if f["problems"] else [],
+                "lanelets": [[i, su, pr, sorted(li)] for i, su, pr, li in f["lanelets"]],
+                "lights": [[i, es, off if off > 0 else 0] for i, es, off in f["lights"]],
+                "signs": f["signs"], "intersections": f["intersections"]}
     return {"obstacles": [[i, sorted(init), [[t, sorted(a)] for t, a in states]] for i, init, states, occs in f["obstacles"]],
-            "problems": f["problems"]}
+            "problems": f["problems"], "lanelets": [[i, su, pr] for i, su, pr, li in f["lanelets"]], "lights": [i for i, es, off in f["lights"]],
+            "signs": f["signs"], "intersections": f["intersections"]}
 
 
 class Spy:
@@ -1391,7 +1477,7 @@ def _observable(view):
         if isinstance(p, dict) and p.get("k") == "traj":
             o = dict(o, pred={k: v for k, v in p.items() if k != "cache"})
         obs.append(o)
-    return {"obstacles": obs, "lanelets": view["net"]["lanelets"], "lights": [l[:3] + l[4:] for l in view["lights"]], "problems": view["problems"]}
+    return {"obstacles": obs, "lanelets": view["net"]["lanelets"], "lights": [l[:3] + l[4:] for l in view["lights"]], "problems": view["problems"], "extra": view.get("extra")}
 
 
 def _hidden(view):
@@ -1486,7 +1572,6 @@ def run_case(ctx, case, with_model=True, old_pb=False):
                     cells[l.lanelet_id].append(tok)
     env = {"sc": sc, "pps": pps, "twin": aux, "I": I, "S": S}
     steps = []          # (model op, compare mode, impl answer, impl abstract view afterwards, ambiguous?, harness op)
-    st0 = abstract(sc, pps, I, cells)
     nfail0 = len(ctx.failures)
 
     def file_answer(res, fmt, mode):
@@ -1495,14 +1580,15 @@ def run_case(ctx, case, with_model=True, old_pb=False):
         return ("ok", _file_abs(res[1], fmt))
 
     s0 = snapshot(sc, pps)
+    st0 = abstract(sc, pps, I, cells, s0)
     # reference exports; an export is itself a read-only operation, so it is framed by snapshots as well
     ref = {}
     for fmt in ("xml", "pb"):
         res = export(ctx, sc, pps, fmt)
         ref[fmt] = _digest(res)
-        steps.append((["writeXml" if fmt == "xml" else "writePb", True], "file-" + fmt, file_answer(res, fmt, "full"),
-                      abstract(sc, pps, I, cells), False, [f"write_{fmt}", "full"]))
         s1 = snapshot(sc, pps)
+        steps.append((["writeXml" if fmt == "xml" else "writePb", True], "file-" + fmt, file_answer(res, fmt, "full"),
+                      abstract(sc, pps, I, cells, s1), False, [f"write_{fmt}", "full"]))
         d = first_diff(s0, s1)
         if d:
             ctx.fail(f"C18/write_{fmt}/changed:{d}", f"writing the {fmt} file changed {d}", {"spec": spec, "ops": [[f"write_{fmt}", "full"]]})
@@ -1535,25 +1621,29 @@ def run_case(ctx, case, with_model=True, old_pb=False):
         amb = op[0] == "find_pos" and any(P.index(tuple(q)) in ambiguous for q in op[1])
         if amb:
             ctx.excluded += 1
-        steps.append((mop, mode, ans, abstract(sc, pps, I, cells), amb, op))
         s1 = snapshot(sc, pps)
+        steps.append((mop, mode, ans, abstract(sc, pps, I, cells, s1), amb, op))
         d = first_diff(s0, s1)
         sub = {"spec": spec, "ops": ops[:i + 1]}
         if d:
             ctx.fail(f"C18/{_opkey(op)}/changed:{d}", f"operation {op[:3]} changed the observable attribute {d}"
                      + (f" (it raised {res[2]})" if res[0] == "err" else ""), sub)
             s0 = s1
+        pending = []
         for fmt in ("xml", "pb"):
             res = export(ctx, sc, pps, fmt)
             e = _digest(res)
-            steps.append((["writeXml" if fmt == "xml" else "writePb", True], "file-" + fmt, file_answer(res, fmt, "full"),
-                          abstract(sc, pps, I, cells), False, [f"write_{fmt}", "full"]))
+            pending.append((["writeXml" if fmt == "xml" else "writePb", True], "file-" + fmt, file_answer(res, fmt, "full"), fmt))
             if e != ref[fmt]:
                 ctx.fail(f"C18/{_opkey(op)}/export-differs:{fmt}", f"the {fmt} export after operation {op[:3]} differs from the export "
                          f"before ({ref[fmt]} -> {e})", sub)
                 ref[fmt] = e
-        # (the two exports just made are read-only operations too; each writer was framed on its own at the start of the case)
+        # (the two exports just made are read-only operations too; each writer was framed on its own at the start of the case;
+        #  one snapshot and one state view after both)
         s2 = snapshot(sc, pps)
+        view_w = abstract(sc, pps, I, cells, s2)
+        for mop_w, mode_w, ans_w, fmt in pending:
+            steps.append((mop_w, mode_w, ans_w, view_w, False, [f"write_{fmt}", "full"]))
         d = first_diff(s0, s2)
         if d:
             ctx.fail(f"C18/write_after_{_opkey(op)}/changed:{d}", f"writing the XML and protobuf files after {op[:3]} changed {d}",
@@ -1582,7 +1672,10 @@ def run_case(ctx, case, with_model=True, old_pb=False):
     mres = ctx.driver.ask("C18", "trace", args)
     impl_l, model_l, what = [], [], ""
     hid_seen = False
+    if mres and mres[-1]["st"].get("extra") != st0["extra"]:
+        ctx.compare(case, st0["extra"], mres[-1]["st"].get("extra"), "the model changed Extra")
     for (mop, mode, ans, view, amb, op), mr in zip(steps, mres):
+        mr["st"]["extra"] = st0["extra"]       # sent with the last step only, compared with the initial one just above
         bad = _compare_answer(mode, ans, mr["out"], amb, op)
         # the observable part of the state view is compared strictly; where the hidden cache flags sit (private slots, their
         # names are an implementation detail) is only recorded: a rewrite that caches differently is not a disagreement
